@@ -99,6 +99,13 @@ def patterns(e):
         ("(e+1)*(e-1)", bn("*", bn("+", e, num(1)), bn("-", e, num(1))),
          bn("-", bn("*", e, e), num(1))),
         ("(e+j)/2", bn("/", bn("+", e, J), two), bn("+", bn("/", e, two), bn("/", J, two))),
+        # pairs whose symbolic difference is a non-integer constant (only '/' produces
+        # these; under truncating division the two sides coincide for some values)
+        ("e/2~(e+1)/2", bn("/", e, two), bn("/", bn("+", e, num(1)), two)),
+        ("(2e+1)/2~e", bn("/", bn("+", bn("*", two, e), num(1)), two), e),
+        ("e+1/2~e", bn("+", e, bn("/", num(1), two)), e),
+        ("e/3~(e+2)/3", bn("/", e, three), bn("/", bn("+", e, two), three)),
+        ("(e+1)/2~e/2+1", bn("/", bn("+", e, num(1)), two), bn("+", bn("/", e, two), num(1))),
         ("(e+j)**2", bn("**", bn("+", e, J), two),
          bn("+", bn("+", bn("*", e, e), bn("*", bn("*", two, e), J)), bn("*", J, J))),
     ]
